@@ -127,3 +127,67 @@ def format_facts(fmt: str):
 def class_const(ctx, cls, attr):
     v = ctx.folder.class_attr(cls, attr)
     return None if v is UNKNOWN else v
+
+
+def zero_read_problems(ctx, cls):
+    """Reads whose size is a decoded (run-time) count must be guarded against a zero count: `_stream_read(stream, 0)`
+    returns nothing and is reported as BufferEmptyError, so an empty string / empty payload would fail to decode.
+    Returns [(node, message)] for the effective _decode of cls."""
+    import ast as _ast
+    from .astutil import walk, attr_path
+    from .linexpr import atom_name, emptiness, cmp_norm
+
+    dd, dfn = effective(ctx, cls, "_decode")
+    if dfn is None:
+        return []
+    g = ctx.cfg(dfn)
+    probs = []
+    for call in walk(dfn):
+        if not (isinstance(call, _ast.Call) and attr_path(call.func) == "cls._stream_read" and len(call.args) == 2):
+            continue
+        size = call.args[1]
+        const = ctx.folder.eval(size, dd.module, cls=cls, func=dfn)
+        if isinstance(const, int):
+            continue
+        if attr_path(size) and attr_path(size).startswith("cls."):
+            continue  # a class constant (capacity); zero capacity is a degenerate type, not a value
+        names = {n.id for n in walk(size) if isinstance(n, _ast.Name)}
+        st = call
+        while not isinstance(st, _ast.stmt):
+            st = getattr(st, "_parent")
+        rn = g.nodes_of(st)
+        if not rn:
+            continue
+        guarded = False
+        for t in g.nodes:
+            if t.kind != "test":
+                continue
+            for v in names:
+                # `v == 0` / `not v` true means zero; `v` / `v != 0` / `v > 0` true means non-zero
+                zero_on_true = None
+                e = t.ast
+                neg = False
+                while isinstance(e, _ast.UnaryOp) and isinstance(e.op, _ast.Not):
+                    neg = not neg
+                    e = e.operand
+                if isinstance(e, _ast.Name) and e.id == v:
+                    zero_on_true = neg
+                else:
+                    c = cmp_norm(t.ast)
+                    if c is not None and set(c[1].terms) == {v}:
+                        k, L = c
+                        if k == "==0" and L.const == 0:
+                            zero_on_true = True
+                        elif k == "!=0" and L.const == 0:
+                            zero_on_true = False
+                        elif k == "<=0" and L.terms[v] == -1 and L.const == 1:  # v >= 1
+                            zero_on_true = False
+                        elif k == "<=0" and L.terms[v] == 1 and L.const == 0:  # v <= 0
+                            zero_on_true = True
+                if zero_on_true is None:
+                    continue
+                if g.branch_dominates(t, (not zero_on_true), rn[0]):
+                    guarded = True
+        if not guarded:
+            probs.append((call, f"`{_ast.unparse(call)}` reads a run-time count of bytes without a guard for count 0: an empty value makes _stream_read raise BufferEmptyError instead of decoding to the empty value"))
+    return probs
